@@ -329,6 +329,40 @@ let do_c12 (op : string) (args : string list) : string =
   | "c12.pmhdr", [h] -> (match pm_view (bytes_of_hex h) with Some (v, _) -> "ok " ^ hex_of_bytes v | None -> "err")
   | _ -> "?c12-args"
 
+(* ---------- C01 / C16 container formats ---------- *)
+let rec nat_of_int' (i : int) : nat = if i <= 0 then O else S (nat_of_int' (i - 1))
+let rec int_of_nat = function O -> 0 | S k -> 1 + int_of_nat k
+let entry_of (t : string) : entry = match List.map n_of_string (split_on ',' t) with
+  | [i; o; l; r] -> { e_id = i; e_off = o; e_len = l; e_run = r } | _ -> failwith "entry"
+let entries_of (s : string) : entry list = if s = "-" then [] else List.map entry_of (split_on ';' s)
+let fmt_entry (e : entry) : string = String.concat "," (List.map string_of_n [e.e_id; e.e_off; e.e_len; e.e_run])
+let fmt_entries (es : entry list) : string = if es = [] then "-" else String.concat ";" (List.map fmt_entry es)
+let rle (s : string) : string =
+  let b = Buffer.create 64 in let n = String.length s in let i = ref 0 in
+  while !i < n do let j = ref !i in while !j < n && s.[!j] = s.[!i] do incr j done;
+    Buffer.add_string b (Printf.sprintf "%cx%d." s.[!i] (!j - !i)); i := !j done; Buffer.contents b
+let do_fmt (op : string) (args : string list) : string =
+  match op, args with
+  | "tileid", [z; x; y] -> (match coord_to_tile_id (z_of_string x) (z_of_string y) (nat_of_int' (int_of_string z)) with Some i -> string_of_z i | None -> "err")
+  | "idcoord", [i] -> (match tile_id_to_coord (z_of_string i) with Some ((z, x), y) -> Printf.sprintf "%d %s %s" (int_of_nat z) (string_of_z x) (string_of_z y) | None -> "err")
+  | "pmdir.ser", [es] -> hex_of_bytes (serialize (entries_of es))
+  | "pmdir.de", [h] -> (match deserialize (bytes_of_hex h) with Ok es -> "ok " ^ fmt_entries es | Err -> "err" | Panic -> "panic" | Overflow -> "overflow")
+  | "pmdir.find", [es; t] -> (match find_tile (entries_of es) (n_of_string t) with Ok (Some e) -> fmt_entry e | Ok None -> "none" | Err -> "err" | Panic -> "panic" | Overflow -> "overflow")
+  | "vtblocks", [lv; tl] ->
+      let boxes = List.map (fun t -> match split_on ':' t with [z; b] -> parse_bbox (z ^ "/" ^ String.concat "/" (split_on ',' b)) | _ -> failwith "level") (split_on ';' lv) in
+      let pyr z = match List.find_opt (fun b -> b.level = z) boxes with Some b -> b | None -> (match new_empty z with Ok b -> b | _ -> failwith "empty") in
+      let tiles = if tl = "-" then [] else List.map (fun t -> match List.map n_of_string (split_on ',' t) with [z; x; y] -> ((z, x), y) | _ -> failwith "tile") (split_on ';' tl) in
+      let tbl = Hashtbl.create 64 in List.iter (fun c -> Hashtbl.replace tbl c ()) tiles;
+      let tf c = if Hashtbl.mem tbl c then Some (n_of_int 1) else None in
+      (match vt_write bbox_index_variant pyr tf with
+       | Ok bs -> String.concat ";" (List.sort compare (List.map (fun b ->
+           let c = b.vb_box in let sh v k = string_of_n (N.sub v (N.mul k (n_of_int 256))) in
+           Printf.sprintf "%s,%s,%s,%s,%s,%s,%s:%s" (string_of_n b.vb_z) (string_of_n b.vb_bx) (string_of_n b.vb_by)
+             (sh c.x_min b.vb_bx) (sh c.y_min b.vb_by) (sh c.x_max b.vb_bx) (sh c.y_max b.vb_by)
+             (rle (String.concat "" (List.map (function Some _ -> "1" | None -> "0") b.vb_slots)))) bs))
+       | Err -> "err" | Panic -> "panic" | Overflow -> "overflow")
+  | _ -> "?fmt-args"
+
 (* ---------- dispatch ---------- *)
 let dispatch (op : string) (args : string list) : string =
   match op with
@@ -338,6 +372,7 @@ let dispatch (op : string) (args : string list) : string =
   | "recomp" | "optc" -> do_recomp op args
   | "tilepath" | "static" -> do_http op args
   | "vpl" -> do_vpl args
+  | "tileid" | "idcoord" | "pmdir.ser" | "pmdir.de" | "pmdir.find" | "vtblocks" -> do_fmt op args
   | "c12.vt" | "c12.pm" | "c12.vthdr" | "c12.pmhdr" -> do_c12 op args
   | "varint" | "svarint" | "mvt.dec" | "mvt.rt" | "mvt.merge" -> do_mvt op args
   | _ when String.length op > 5 && String.sub op 0 5 = "json." -> do_json op args
